@@ -66,6 +66,26 @@ def osm_route(ctx: Ctx):
                     isnone = any(flow.is_syn(b, "$isnone") and polb is True and flow.dump(b.args[0]) == da for b, polb in flow.implied(deciding.test, deciding.pol))
                     if not isnone:
                         bad = da
+            # ... and only then: what decides this empty result must BE a failure of one of the steps (an error slot set, a value slot None,
+            # the resolver handing back nothing) — not the success of a step, and not origin != destination
+            if deciding is not None and bad is None:
+                k, kpol = flow._atom_key(deciding.test)
+                if deciding.pol is False:
+                    kpol = not kpol
+                legit = False
+                if k.endswith("[0]") and k.startswith(("extract_node_ids_int(", "route_from_nx_path(")) and kpol is True:
+                    legit = True  # an error was returned
+                elif k.endswith("[1] is None") and k.startswith(("extract_node_ids_int(", "route_from_nx_path(")) and kpol is True:
+                    legit = True  # no value was returned
+                elif k.startswith("resolve_route_src_dst_positions(") and ((k.endswith(" is None") and kpol is True) or (not k.endswith(" is None") and kpol is False)):
+                    legit = True  # the resolver found no link for one of the positions
+                elif k.startswith("$isnone(") and kpol is True:
+                    legit = True
+                ctx.check(legit, "D1", "DU.route", "the empty route is returned for distinct positions only when a step of the assembly failed", fn, p.end,
+                          why_ok=f"decided by `{k[:70]}`",
+                          why_bad=f"the empty route is returned because `{('' if kpol else 'not ') + k[:140]}`: that is not a failure of the search / assembly — a query whose route exists gets no route "
+                                  f"(the vehicle is told it has arrived)",
+                          construct=f"OSMRoadNetwork.route:empty-on:{k[:80]}:{kpol}")
             ctx.check(bad is None, "D1", "DU.route", "a non-trivial query returns the empty route only on an error / None result", fn, p.end,
                       why_bad=f"`{flow.dump(deciding.raw)}`: an EMPTY inner route (origin link ends where the destination link starts) is falsy too and is treated as a failure — "
                               f"distinct positions on adjacent links get an empty route", construct="OSMRoadNetwork.route:empty-inner-as-failure")
